@@ -47,6 +47,9 @@ void h_mem_tok_r(void) { char *p = mk(); struct instr I, J; int pos;
   CHECK(SAME(opd[pos].type) && SAME(opd[pos].str[0]) && SAME(opd[pos].str[MAX_REG_LEN - 1]) && I.opd[pos].sib[MAX_REG_LEN - 1] == 0, "this slot: type and register string unchanged, index string terminated");
   REACH("end"); }
 
+void w_imm_tok(struct instr *instr_buffer, char *buf, int off) { imm_tok(instr_buffer, buf + off); }
+void h_w_imm_tok(void) { struct instr *I; char *b; int off; w_imm_tok(I, b, off); REACH("end"); }
+
 static struct instr GI;
 void h_check_operand_type_r(void) { char *p = mk(); int pos; int k; _Bool nul;
   ASSUME(k >= 0 && k < FILTERED_STR_LEN);
